@@ -222,9 +222,11 @@ pub fn option_tuples(r: &mut Rng, extra: usize) -> Vec<Options> {
         v.push(s);
     }
     const DERIVES: &[&str] = &["", "Debug", "Serialize, Deserialize, Debug, Clone, PartialEq", "serde::Deserialize", "D(x)", "Debug,",
-                               " Debug ", "Debug, Debug", "Serialize,Deserialize", "Deserialize", "a b", ")]"];
-    const PREFIXES: &[&str] = &["", "@", "a", "attr_", "@@", "$", "i", "p", "x", "n:", "xmlns:", "_", "\u{e4}@", "\u{e9}", "\u{434}_", "\u{df}"];
-    const TEXTIDS: &[&str] = &["$text", "$value", "t", "text", "#text", "body", "\u{e9}$", "\u{442}\u{435}\u{43a}\u{441}\u{442}"];
+                               " Debug ", "Debug, Debug", "Serialize,Deserialize", "Deserialize", "a b", ")]",
+                               // strings that mean something to a formatter, a template or a regular expression
+                               "{}", "Wrapper<{}>", "{0}", "{{}}", "%s", "$1", "\\n", "D\u{e9}bug"];
+    const PREFIXES: &[&str] = &["", "@", "a", "attr_", "@@", "$", "i", "p", "x", "n:", "xmlns:", "_", "\u{e4}@", "\u{e9}", "\u{434}_", "\u{df}", "{}", "%s"];
+    const TEXTIDS: &[&str] = &["$text", "$value", "t", "text", "#text", "body", "\u{e9}$", "\u{442}\u{435}\u{43a}\u{441}\u{442}", "{}", "$1"];
     for _ in 0..extra {
         let d: &str = DERIVES[r.below(DERIVES.len())];
         let mut o = Options::quick_xml_de().derive(d);
